@@ -296,7 +296,20 @@ def gen(i, R, tier, force_mode=None):
                 p = rng.choice(sorted(placed))
                 ops.append({"op": "delete", "path": p})
                 ops.append({"op": "scan_inproc", "nonce": G.nonce(rng)})
-            elif r2 < 0.14 and placed:
+            elif r2 < 0.17 and placed:
+                # the command functions themselves called repeatedly by one long-lived process (an
+                # editor plug-in, a server): scan under a .codelimit.yml, scan without it, check twice
+                from . import c11
+                pats = list(dict.fromkeys(c11.pattern(rng, placed) for _ in range(rng.randint(1, 2))))
+                seq = [{"op": "set_yml", "patterns": pats}, {"op": "scan", "nonce": G.nonce(rng), "inproc": True},
+                       {"op": "set_yml", "patterns": None}, {"op": "scan", "nonce": G.nonce(rng), "inproc": True},
+                       {"op": "cache_delete", "what": "dir"}]
+                files_ = [q for q in sorted(placed) if not any(x.startswith(".") for x in q.split("/"))]
+                for q in rng.sample(files_, min(len(files_), 2)):
+                    seq.append({"op": "check", "args": [q], "cwd": "root", "quiet": False, "nonce": G.nonce(rng), "inproc": True})
+                seq.append({"op": "check", "args": ["."], "cwd": "root", "quiet": False, "nonce": G.nonce(rng), "inproc": True})
+                ops += seq if rng.random() < 0.7 else seq[::-1][:4][::-1]
+            elif r2 < 0.20 and placed:
                 # the same path gets new bytes between two scans of one process
                 p = rng.choice(sorted(placed))
                 ops.append({"op": "scan_inproc", "nonce": G.nonce(rng)})
